@@ -19,6 +19,7 @@ type CircuitOpts struct {
 	MaxOuts  int  // max declared outputs (default 4)
 	MaxOutW  int  // max width of one output (default 17)
 	MaxGates int  // extra gates beyond the outputs (default 400)
+	WideLast int  // if > 0: one case in five gives the last party 513..WideLast input bits (several OT-extension chunks)
 	GMW      bool // only XOR/XNOR/AND/INV
 	ANDHeavy bool
 }
@@ -54,6 +55,9 @@ func Circuit(t *rt.Tape, o CircuitOpts) *circuit.Circuit {
 		bits := 1 + t.Choose(rt.SGen, o.MaxIn)
 		if t.Choose(rt.SGen, 4) == 0 {
 			bits = 1 + t.Choose(rt.SGen, 3)
+		}
+		if o.WideLast > 513 && p == o.Parties-1 && t.Choose(rt.SGen, 5) == 0 {
+			bits = 513 + t.Choose(rt.SGen, o.WideLast-513)
 		}
 		c.Inputs = append(c.Inputs, circuit.IOArg{Name: fmt.Sprintf("in%d", p), Type: uintType(bits)})
 		nin += bits
